@@ -11,7 +11,8 @@ import (
 
 func (p *Program) heapFieldName(t types.Type, fi int) string {
 	si := p.ss.structInfoOf(t)
-	name := "Hf." + si.name + "." + mangle(si.fields[fi].name)
+	fname := si.fields[fi].acc[len(si.name)+1:]
+	name := "Hf." + si.name + "." + fname
 	if _, ok := p.heapSorts[name]; !ok {
 		p.heapSorts[name] = "(Array Int " + si.fields[fi].sort + ")"
 	}
@@ -73,6 +74,7 @@ func (p *Program) pointeeHeaps(t types.Type) []string {
 
 type directInfo struct {
 	heaps   map[string]bool
+	fresh   map[string]bool // heaps touched only at objects allocated by the function itself
 	callees []*ssa.Function
 	sigs    []*types.Signature
 }
@@ -134,8 +136,13 @@ func (p *Program) direct(fn *ssa.Function) *directInfo {
 	if d, ok := p.directCache[fn]; ok {
 		return d
 	}
-	d := &directInfo{heaps: map[string]bool{}}
+	d := &directInfo{heaps: map[string]bool{}, fresh: map[string]bool{}}
 	p.directCache[fn] = d
+	addFresh := func(hs []string) {
+		for _, h := range hs {
+			d.fresh[h] = true
+		}
+	}
 	fr := &Frame{fn: fn}
 	fr.classifyAllocs()
 	add := func(hs []string) {
@@ -150,28 +157,32 @@ func (p *Program) direct(fn *ssa.Function) *directInfo {
 				a, hs := p.addrRoot(in.Addr)
 				if a != nil {
 					if !fr.isCell[a] {
-						// escaping local: it is a heap object
+						// escaping local: a heap object allocated by this activation
 						_, hs2 := p.addrRootHeap(in.Addr)
-						add(hs2)
+						addFresh(hs2)
 					}
 				} else {
 					add(hs)
 				}
 			case *ssa.Alloc:
 				if !fr.isCell[in] {
-					add(p.pointeeHeaps(deref(in.Type())))
+					addFresh(p.pointeeHeaps(deref(in.Type())))
 				}
 			case *ssa.MapUpdate:
 				if mt, ok := types.Unalias(in.Map.Type()).Underlying().(*types.Map); ok {
 					dn, vn := p.heapMapNames(mt)
-					add([]string{dn, vn})
+					if _, isNew := in.Map.(*ssa.MakeMap); isNew {
+						addFresh([]string{dn, vn})
+					} else {
+						add([]string{dn, vn})
+					}
 				}
 			case *ssa.MakeMap:
 				mt := types.Unalias(in.Type()).Underlying().(*types.Map)
-				dn, _ := p.heapMapNames(mt)
-				add([]string{dn})
+				dn, vn := p.heapMapNames(mt)
+				addFresh([]string{dn, vn})
 			case *ssa.MakeSlice:
-				add([]string{p.heapElemName(types.Unalias(in.Type()).Underlying().(*types.Slice).Elem())})
+				addFresh([]string{p.heapElemName(types.Unalias(in.Type()).Underlying().(*types.Slice).Elem())})
 			case *ssa.MakeClosure:
 				d.callees = append(d.callees, in.Fn.(*ssa.Function))
 			case ssa.CallInstruction:
@@ -284,12 +295,24 @@ func sortedSet(m map[string]bool) []string {
 	return out
 }
 
-// modHeapsList: transitive heap write set of a pint function.
+// modHeapsList: transitive heap write set of a pint function (objects that existed before the call).
 func (p *Program) modHeapsList(fn *ssa.Function) []string {
+	w, _ := p.modSets(fn)
+	return w
+}
+
+// modFreshList: heaps in which the function only touches objects it allocated itself.
+func (p *Program) modFreshList(fn *ssa.Function) []string {
+	_, f := p.modSets(fn)
+	return f
+}
+
+func (p *Program) modSets(fn *ssa.Function) ([]string, []string) {
 	if m, ok := p.modCache[fn]; ok {
-		return m
+		return m, p.freshCache[fn]
 	}
 	set := map[string]bool{}
+	fresh := map[string]bool{}
 	seen := map[*ssa.Function]bool{}
 	var sigs []*types.Signature
 	var visit func(f *ssa.Function)
@@ -301,6 +324,9 @@ func (p *Program) modHeapsList(fn *ssa.Function) []string {
 		d := p.direct(f)
 		for h := range d.heaps {
 			set[h] = true
+		}
+		for h := range d.fresh {
+			fresh[h] = true
 		}
 		sigs = append(sigs, d.sigs...)
 		for _, c := range d.callees {
@@ -324,8 +350,12 @@ func (p *Program) modHeapsList(fn *ssa.Function) []string {
 		}
 	}
 	out := sortedSet(set)
+	for h := range set {
+		delete(fresh, h)
+	}
 	p.modCache[fn] = out
-	return out
+	p.freshCache[fn] = sortedSet(fresh)
+	return out, p.freshCache[fn]
 }
 
 func (p *Program) dynCallMods(sig *types.Signature) []string {
@@ -353,16 +383,24 @@ func (p *Program) invokeMods(c *ssa.CallCommon) []string {
 	return sortedSet(set)
 }
 
-// loopMods: state variables (cells of this frame, heaps, iterators) that the loop with header h may write.
-func (p *Program) loopMods(x *Exec, fr *Frame, h *ssa.BasicBlock) []string {
+// loopMods: state variables (cells of this frame, heaps, iterators) that the loop with header h may write, and
+// heaps in which it only touches objects allocated inside the loop.
+func (p *Program) loopMods(x *Exec, fr *Frame, h *ssa.BasicBlock) ([]string, []string) {
 	set := map[string]bool{}
+	fresh := map[string]bool{}
 	add := func(hs []string) {
 		for _, s := range hs {
 			set[s] = true
 		}
 	}
-	d := &directInfo{heaps: map[string]bool{}}
-	for b := range fr.loops.body[h] {
+	addFresh := func(hs []string) {
+		for _, s := range hs {
+			fresh[s] = true
+		}
+	}
+	body := fr.loops.body[h]
+	d := &directInfo{heaps: map[string]bool{}, fresh: map[string]bool{}}
+	for b := range body {
 		for _, in := range b.Instrs {
 			switch in := in.(type) {
 			case *ssa.Store:
@@ -372,7 +410,11 @@ func (p *Program) loopMods(x *Exec, fr *Frame, h *ssa.BasicBlock) []string {
 						set[x.cellVar(fr, a)] = true
 					} else {
 						_, hs2 := p.addrRootHeap(in.Addr)
-						add(hs2)
+						if body[a.Block()] {
+							addFresh(hs2)
+						} else {
+							add(hs2)
+						}
 					}
 				} else {
 					add(hs)
@@ -381,7 +423,7 @@ func (p *Program) loopMods(x *Exec, fr *Frame, h *ssa.BasicBlock) []string {
 				if fr.isCell[in] {
 					set[x.cellVar(fr, in)] = true
 				} else {
-					add(p.pointeeHeaps(deref(in.Type())))
+					addFresh(p.pointeeHeaps(deref(in.Type())))
 				}
 			case *ssa.MapUpdate:
 				if mt, ok := types.Unalias(in.Map.Type()).Underlying().(*types.Map); ok {
@@ -389,10 +431,10 @@ func (p *Program) loopMods(x *Exec, fr *Frame, h *ssa.BasicBlock) []string {
 					add([]string{dn, vn})
 				}
 			case *ssa.MakeMap:
-				dn, _ := p.heapMapNames(types.Unalias(in.Type()).Underlying().(*types.Map))
-				add([]string{dn})
+				dn, vn := p.heapMapNames(types.Unalias(in.Type()).Underlying().(*types.Map))
+				addFresh([]string{dn, vn})
 			case *ssa.MakeSlice:
-				add([]string{p.heapElemName(types.Unalias(in.Type()).Underlying().(*types.Slice).Elem())})
+				addFresh([]string{p.heapElemName(types.Unalias(in.Type()).Underlying().(*types.Slice).Elem())})
 			case *ssa.Next:
 				if r, ok := in.Iter.(*ssa.Range); ok {
 					set[x.iterName(fr, r)] = true
@@ -410,7 +452,9 @@ func (p *Program) loopMods(x *Exec, fr *Frame, h *ssa.BasicBlock) []string {
 		set[h] = true
 	}
 	for _, c := range d.callees {
-		add(p.modHeapsList(c))
+		w, f := p.modSets(c)
+		add(w)
+		addFresh(f)
 	}
 	for _, s := range d.sigs {
 		add(p.dynCallMods(s))
@@ -420,5 +464,8 @@ func (p *Program) loopMods(x *Exec, fr *Frame, h *ssa.BasicBlock) []string {
 		x.vc.axiom(app(">", x.initConst(allocVar), "0"))
 	}
 	set[allocVar] = true
-	return sortedSet(set)
+	for h := range set {
+		delete(fresh, h)
+	}
+	return sortedSet(set), sortedSet(fresh)
 }
